@@ -196,7 +196,16 @@ def classify(desc):
 
 
 def extract_vector(trace):
-    """replay vector = final contents of __vf_log[0..__vf_n)"""
+    """replay vector = the values passed to the logger lg(v), in call order (robust under --slice-formula: the array
+    writes may be sliced away, the accumulator keeps every call in the cone); falls back to the contents of __vf_log"""
+    seq = []
+    for st in trace:
+        # every drawing primitive assigns its fresh value to a local `v` exactly once per call before logging it
+        if st.get('stepType') == 'assignment' and st.get('lhs') == 'v' and 'data' in st.get('value', {}) \
+                and st.get('sourceLocation', {}).get('function') in ('vf_nondet_u8', 'vf_nondet_u16', 'vf_nondet_usize', 'vf_havoc_c'):
+            seq.append(_num(st['value']))
+    if seq:
+        return seq[:1024]
     vals, n = {}, 0
     for st in trace:
         if st.get('stepType') != 'assignment':
@@ -356,12 +365,20 @@ def solve(res, caps):
     return res
 
 
+def prop_needs_checks(prop):
+    """the trace run decides ONE property; CBMC's pointer/bounds instrumentation is only needed if that property is one of them
+    (property names are <function>.<class>.<n> with per-class counters, so dropping the instrumentation does not renumber assertions)"""
+    return not re.search(r'\.assertion\.\d+$', prop)
+
+
 def get_trace(res, prop, caps):
     """second solver call restricted to one failing property, with trace; returns the replay vector"""
     lb = res.get('loop_bounds') or {}
     us = ['--unwindset', ','.join('%s:%d' % kv for kv in sorted(lb.items()))] if lb else []
-    r = run_cbmc(res['cfile'], res['info']['c_entry'], res.get('base_unwind', res['unwind']), defs=['VF_REACH'], extra=['--trace', '--property', prop] + us,
-                 timeout=caps['timeout'], mem_gb=caps['mem_gb'], slice_=False)
+    sliceable = bool(re.search(r'\.assertion\.\d+$', prop))   # harness assertions carry the log dependency under -DVF_TRACE
+    r = run_cbmc(res['cfile'], res['info']['c_entry'], res.get('base_unwind', res['unwind']), defs=['VF_REACH', 'VF_TRACE'],
+                 extra=['--trace', '--property', prop] + us, timeout=3 * caps['timeout'], mem_gb=caps['mem_gb'],
+                 slice_=sliceable, checks=prop_needs_checks(prop))
     if r['status'] != 'done':
         return None
     for p in r['results']:
@@ -413,7 +430,7 @@ def replay_native(harness, group, vector, profiles=('release', 'dev'), feats=())
         ma = re.search(r'ALLOCS (\d+)', txt)
         if ma and int(ma.group(1)) > 0 and not ids and 'REPLAY-PANIC' not in txt:
             ids.add(-3)   # heap requests during a run without failing checks or panics
-        if 'REPLAY-INVALID' in txt:
+        if 'REPLAY-INVALID' in txt and not ids:
             out[prof] = 'INVALID'
         elif p.returncode < 0:
             out[prof] = {'signal': -p.returncode}
